@@ -53,10 +53,26 @@ public:
     ~FormatterStringLengthCounter();
 
 
+    /**
+     * The number of UTF-16 code units sent to the characters event.
+     */
     size_type
     getCount() const
     {
         return m_count;
+    }
+
+    /**
+     * The number of characters sent to the characters event, as XPath
+     * counts them: a surrogate pair is one character, also when its
+     * two code units arrived in two consecutive events.
+     *
+     * @see XPathCharacters
+     */
+    size_type
+    getCharacterCount() const
+    {
+        return m_count - m_pairCount;
     }
 
     // These methods are inherited from FormatterListener ...
@@ -125,6 +141,10 @@ private:
 
     // Data members...
     size_type   m_count;
+
+    size_type   m_pairCount;
+
+    bool        m_highSurrogatePending;
 };
 
 
